@@ -324,13 +324,15 @@ static void pair(int argc, char** argv)
 	SKIP(hasP, single("nega", AL_N, 2, v)); SEP; SKIP(hasP, single("nega", AL_CA, 2, v)); SEP;
 	/* affine + affine */
 	v[2] = argv[3], v[3] = argv[4];
-	for (i = 0; i < 3; ++i) { SKIP(hasP && hasQ, single("addaa", al_of(alJ[i]), 4, v)); SEP; }
+	/* ec2AddAA / ec2SubAA require a and c disjoint (ASSERT(wwIsDisjoint(a, c, 2 * n))): for binary curves
+	   the patterns c == a and a == b == c are outside the documented aliasings and are skipped */
+	for (i = 0; i < 3; ++i) { SKIP(hasP && hasQ && !(BIN && i == 1), single("addaa", al_of(alJ[i]), 4, v)); SEP; }
 	v[2] = argv[0], v[3] = argv[1];
-	SKIP(hasP, single("addaa", AL_ABC, 4, v)); SEP;
+	SKIP(hasP && !BIN, single("addaa", AL_ABC, 4, v)); SEP;
 	v[2] = argv[3], v[3] = argv[4];
-	for (i = 0; i < 3; ++i) { SKIP(hasP && hasQ, single("subaa", al_of(alJ[i]), 4, v)); SEP; }
+	for (i = 0; i < 3; ++i) { SKIP(hasP && hasQ && !(BIN && i == 1), single("subaa", al_of(alJ[i]), 4, v)); SEP; }
 	v[2] = argv[0], v[3] = argv[1];
-	SKIP(hasP, single("subaa", AL_ABC, 4, v));
+	SKIP(hasP && !BIN, single("subaa", AL_ABC, 4, v));
 }
 
 /* scalar: hex -> exact-size buffer of m words; 0 if it does not fit */
@@ -392,6 +394,23 @@ static void handle(int argc, char** argv)
 		if (!ok) printf("bad-op");
 		else printf("%d", (BIN ? ec2IsOnA(a, EC, STACK) : ecpIsOnA(a, EC, STACK)) ? 1 : 0);
 		free(a);
+	}
+	else if (!strcmp(op, "naf") && argc == 2)
+	{
+		/* wwNAF(naf, d, n, w) itself: number of digits and the packed string */
+		size_t w = (size_t)strtoull(argv[1], 0, 16);
+		size_t m = W_OF_O(hex_octets(argv[0]));
+		word* d = scalar(argv[0], m);
+		word* naf = (word*)xalloc(O_OF_W(2 * m + 1));
+		octet* le = (octet*)xalloc(O_OF_W(2 * m + 1));
+		if (!d || w < 2 || w >= B_PER_W) printf("bad-op");
+		else
+		{
+			printf("%zx ", wwNAF(naf, d, m, w));
+			wwTo(le, O_OF_W(2 * m + 1), naf);
+			put_le(le, O_OF_W(2 * m + 1));
+		}
+		free(d), free(naf), free(le);
 	}
 	else if (!strcmp(op, "swu") && argc == 1 && !BIN)
 	{
